@@ -26,6 +26,23 @@ func Root() string {
 	return "/verif"
 }
 
+// OutDir is where evidence/ and replays/ are written (Root unless VERIF_OUT is set
+// by `run` for scratch-worktree runs).
+func OutDir() string {
+	if r := os.Getenv("VERIF_OUT"); r != "" {
+		return r
+	}
+	return Root()
+}
+
+// RepoDir is the textmapper tree under check (/repo unless VERIF_REPO is set).
+func RepoDir() string {
+	if r := os.Getenv("VERIF_REPO"); r != "" {
+		return r
+	}
+	return "/repo"
+}
+
 // Ctx carries one run of one property check.
 type Ctx struct {
 	ID    string
@@ -263,8 +280,8 @@ func (c *Ctx) matchKnown(key string) int {
 func (c *Ctx) Finish() int {
 	c.mu.Lock()
 	defer c.mu.Unlock()
-	os.MkdirAll(filepath.Join(Root(), "replays"), 0o755)
-	os.MkdirAll(filepath.Join(Root(), "evidence"), 0o755)
+	os.MkdirAll(filepath.Join(OutDir(), "replays"), 0o755)
+	os.MkdirAll(filepath.Join(OutDir(), "evidence"), 0o755)
 	real := 0
 	knownLines := map[int]int{}
 	sort.Strings(c.order)
@@ -279,7 +296,7 @@ func (c *Ctx) Finish() int {
 			continue
 		}
 		h := sha1.Sum([]byte(k))
-		p := filepath.Join(Root(), "replays", fmt.Sprintf("%s-%s.json", c.ID, hex.EncodeToString(h[:5])))
+		p := filepath.Join(OutDir(), "replays", fmt.Sprintf("%s-%s.json", c.ID, hex.EncodeToString(h[:5])))
 		data, _ := json.MarshalIndent(map[string]any{"property": c.ID, "key": v.Key, "what": v.What, "replay": v.Replay, "occurrences": v.Count}, "", " ")
 		os.WriteFile(p, data, 0o644)
 		v.path = p
@@ -330,7 +347,7 @@ func (c *Ctx) Finish() int {
 		"violations":  real,
 	}
 	data, _ := json.MarshalIndent(ev, "", " ")
-	evPath := filepath.Join(Root(), "evidence", c.ID+".json")
+	evPath := filepath.Join(OutDir(), "evidence", c.ID+".json")
 	if err := os.WriteFile(evPath, append(data, '\n'), 0o644); err != nil {
 		fmt.Fprintln(os.Stderr, "cannot write evidence:", err)
 		return 2
